@@ -29,7 +29,12 @@ RULE = ("primitives: every primitive class on boundary pools (length mod 8 in 0.
         "constructor arguments dropped (exhaustive when <= tier bound), unpopulated arguments filled, leaf values "
         "replaced by boundary values, list elements dropped/duplicated; each instance under KMIP 1.0,1.1,1.2,1.3,1.4,2.0: "
         "encode, decode with a fresh instance, no residue, re-encode == bytes, structural comparison (not __eq__), "
-        "and one shared object encoded under the versions up and down against fresh-copy encodings.  Schema layer "
+        "and one shared object encoded under the versions up and down against fresh-copy encodings.  Falsy values: "
+        "for every class and every constructor argument holding a primitive (raw value, primitive object, or list of "
+        "them; unpopulated arguments filled from other examples), a truthy and a falsy sibling (False, 0, '', b'', "
+        "[], enum member 0), alone and with the other arguments, under every version: where the truthy sibling's "
+        "attribute survives decode(encode(x)) the falsy one's must too (falsy_combinations = distinct (class, field, "
+        "falsy value, version) that encoded and decoded).  Schema layer "
         "(M3): for every class of the Lean schema table, real encodings and their child-level neighbours (child "
         "dropped / duplicated / moved / re-typed within a layout-compatible type / a foreign primitive child inserted) "
         "are given to the class's reader and to Lean decodeS: same accept/reject and same re-encode stability.  "
@@ -183,6 +188,8 @@ def struct_phase(ctx, cov):
     cov["struct_classes_encoded"] = len(covered)
     cov["struct_classes_uncovered"] = [k.replace("kmip.core.", "") for k in sorted(classes) if k not in covered]
     cov["struct_instances"] = run.evaluations
+    cov["falsy_combinations"] = getattr(run, "falsy_combinations", 0)
+    cov["falsy_per_class"] = getattr(run, "falsy_per_class", {})
     cov["struct_stats"] = dict(sorted(run.stats.items()))
     cov["struct_library"] = run.lib.stats
     cov["struct_per_class"] = {k.replace("kmip.core.", ""): {"instances": v.get("instances"),
@@ -373,6 +380,17 @@ def replay(ctx, rep):
             return ok
         print("re-run the check with seed %s to regenerate this traffic" % r.get("seed"))
         return True
+    if r.get("kind") == "falsy":
+        lib = IC.Library()
+        cls = lib.classes[r["class"]][0]
+        base = {k: CC.undescribe_value(d) for k, d in r.get("base", {}).items()}
+        xt = cls(**dict(base, **{r["field"]: CC.undescribe_value(r["truthy"])}))
+        xf = cls(**dict(base, **{r["field"]: CC.undescribe_value(r["falsy"])}))
+        v = IC.vof(r["version"])
+        rt = CC.field_survives(xt, r["field"], v, [], cls.__name__)
+        rf = CC.field_survives(xf, r["field"], v, [], cls.__name__)
+        print("truthy sibling survives: %s; falsy sibling survives: %s" % (rt, rf))
+        return not (rt is True and rf is False)
     if r.get("kind") == "struct":
         got = CC.replay_struct(r)
         if got is None:
